@@ -20,6 +20,7 @@ pub mod c12;
 pub mod c13;
 pub mod c14;
 pub mod c15;
+pub mod c16;
 pub mod c17;
 pub mod c18;
 pub mod c19;
@@ -46,6 +47,7 @@ pub fn all() -> Vec<PropDef> {
         c13::def(),
         c14::def(),
         c15::def(),
+        c16::def(),
         c17::def(),
         c18::def(),
         c19::def(),
